@@ -53,7 +53,19 @@ def main():
         meta["steps"]["demo_on_clean"] = {"rc": rc, "tail": out[-600:]}
         print(f"[1] demo on clean tree: rc={rc}")
         rc, out = sh(["git", "-C", wt, "apply", os.path.join(src, "patch.diff")])
+        rediffed = False
+        if rc != 0:
+            # the seeder's worktree may predate a later fix: commit in /repo; fall back to a fuzzy apply and re-diff
+            rc, out2 = sh(f"patch -p1 -F3 --no-backup-if-mismatch < {os.path.join(src, 'patch.diff')}", cwd=wt)
+            rediffed = rc == 0
+            out += out2
         assert rc == 0, "patch does not apply: " + out
+        if rediffed:
+            sh("find . -name '*.orig' -o -name '*.rej' | xargs -r rm -f", cwd=wt)
+            sh(["git", "-C", wt, "add", "-N", "."])
+            rc2, d = sh(["git", "-C", wt, "diff"])
+            open(os.path.join(src, "patch.diff"), "w").write(d)
+            meta["patch_rediffed_against_head"] = True
         rc, out = sh(["go", "build", "-overlay", ov, "./..."], cwd=wt)
         meta["steps"]["build"] = {"rc": rc, "tail": out[-600:]}
         print(f"[2] build with change: rc={rc}")
